@@ -11,10 +11,13 @@
      - node inputs ("" = omitted) are defined earlier in the same scope or in an enclosing scope BEFORE the
        node that owns the nested graph (transitively);
      - node outputs ("" = omitted) are new: neither defined earlier in the same scope nor visible from an
-       enclosing scope (no redefinition of a visible outer name; a body MAY reuse a name that the parent
-       defines only at/after the owner node, and sibling bodies may reuse each other's names -- exactly as
-       the checker's LexicalScopeContext behaves);  inner graph INPUTS/INITIALIZERS may shadow (checker and
-       ORT accept this);
+       enclosing scope (the checker's LexicalScopeContext rule), AND -- stricter, position independent, needed for
+       onnxruntime -- not equal to ANY name an enclosing scope defines at any position, except the outputs of the
+       owner node(s) on the path: onnxruntime checks a nested body against the names its own topological order has
+       produced so far, and that order may place an independent LATER node of the parent before the owner
+       ("Graph must be in single static assignment (SSA) form" on a model onnx.checker accepts; observed with a
+       mutated converter).  A body may reuse the name of its owner's output and sibling bodies may reuse each
+       other's names (both tools accept);  inner graph INPUTS/INITIALIZERS may shadow (both tools accept);
      - graph outputs are defined in the graph itself (the checker and ORT reject a body output that is only
        an outer-scope value);
      - function bodies: the enclosing scope is EMPTY (only the function inputs), SSA, outputs defined in the
@@ -127,33 +130,43 @@ Section Check.
   Definition outs_ok (vis : list string) (n : onode) : bool :=
     nodupb (nonempty (on_outs n)) && forallb (fun o => negb (str_mem o vis)) (nonempty (on_outs n)).
 
+  Definition minus (l r : list string) : list string := filter (fun x => negb (str_mem x r)) l.
+
   (* returns the names defined in this scope after the nodes, None = rejected.
-     `outer` = names visible from enclosing scopes, `loc` = names defined so far in this scope *)
-  Fixpoint chk_nodes (sub : list string -> nat -> bool) (outer loc : list string) (ns : list onode)
-    : option (list string) :=
+     `outer` = names visible from enclosing scopes (defined before the owner), `loc` = names defined so far in
+     this scope, `alld` = ALL names this scope defines (any position), `forb` = all names the enclosing scopes
+     define at any position, minus the outputs of the owner nodes on the path *)
+  Fixpoint chk_nodes (sub : list string -> list string -> nat -> bool) (alld forb outer loc : list string)
+    (ns : list onode) : option (list string) :=
     match ns with
     | [] => Some loc
     | n :: r =>
         let vis := loc ++ outer in
-        if nodeP n && ins_ok vis n && forallb (sub vis) (node_subgraph_ids n) && outs_ok vis n
-        then chk_nodes sub outer (nonempty (on_outs n) ++ loc) r
+        if nodeP n && ins_ok vis n &&
+           forallb (sub vis (minus (forb ++ alld) (on_outs n))) (node_subgraph_ids n) &&
+           outs_ok (forb ++ vis) n
+        then chk_nodes sub alld forb outer (nonempty (on_outs n) ++ loc) r
         else None
     end.
+
+  Definition scope_defs (header : list string) (ns : list onode) : list string :=
+    header ++ nonempty (flat_map on_outs ns).
 
   Definition graph_header_ok (g : ograph) : bool :=
     let ins := map vi_name (og_inputs g) in
     let inits := map vi_name (og_inits g) in
     nodupb ins && nodupb inits && negb (str_mem "" ins) && negb (str_mem "" inits).
 
-  Fixpoint chk_graph (fuel : nat) (outer : list string) (gid : nat) : bool :=
+  Fixpoint chk_graph (fuel : nat) (outer forb : list string) (gid : nat) : bool :=
     match fuel with
     | O => false
     | S f =>
         match graph_by_id m gid with
         | None => false
         | Some g =>
+            let header := map vi_name (og_inits g) ++ map vi_name (og_inputs g) in
             graph_header_ok g &&
-            match chk_nodes (chk_graph f) outer (map vi_name (og_inits g) ++ map vi_name (og_inputs g)) (og_nodes g) with
+            match chk_nodes (chk_graph f) (scope_defs header (og_nodes g)) forb outer header (og_nodes g) with
             | Some final => forallb (fun o => str_mem o final) (map vi_name (og_outputs g))
             | None => false
             end
@@ -163,7 +176,7 @@ Section Check.
   (* function body: enclosing scope empty, local scope starts with the function inputs *)
   Definition chk_function (fuel : nat) (f : ofunction) : bool :=
     nodupb (of_inputs f) && nodupb (of_outputs f) && negb (str_mem "" (of_inputs f)) &&
-    match chk_nodes (chk_graph fuel) [] (of_inputs f) (of_nodes f) with
+    match chk_nodes (chk_graph fuel) (scope_defs (of_inputs f) (of_nodes f)) [] [] (of_inputs f) (of_nodes f) with
     | Some final => forallb (fun o => str_mem o final) (of_outputs f)
     | None => false
     end.
@@ -203,7 +216,7 @@ Definition fn_acyclic (m : omodel) : bool :=
   forallb (call_depth_ok m (S (length (om_functions m)))) (om_functions m).
 
 Definition wf_model (m : omodel) : bool :=
-  chk_graph m (node_ok m [om_opsets m]) (wf_fuel m) [] 0 &&
+  chk_graph m (node_ok m [om_opsets m]) (wf_fuel m) [] [] 0 &&
   forallb (fun f => chk_function m (node_ok m [of_opsets f; om_opsets m]) (wf_fuel m) f) (om_functions m) &&
   fn_acyclic m.
 
@@ -214,17 +227,19 @@ Section Spec.
 
   (* WFNodes Sub outer loc ns final: the nodes ns, run in a scope whose enclosing scopes make `outer`
      visible and in which `loc` is already defined, are well scoped and leave `final` defined *)
-  Fixpoint WFNodes (Sub : list string -> nat -> Prop) (outer loc : list string) (ns : list onode)
-    (final : list string) : Prop :=
+  Fixpoint WFNodes (Sub : list string -> list string -> nat -> Prop) (alld forb outer loc : list string)
+    (ns : list onode) (final : list string) : Prop :=
     match ns with
     | [] => final = loc
     | n :: r =>
         NodeP n /\
         (forall i, In i (on_ins n) -> i <> "" -> In i loc \/ In i outer) /\      (* defined before use *)
-        (forall gid, In gid (node_subgraph_ids n) -> Sub (loc ++ outer) gid) /\  (* bodies see what the node sees *)
+        (* bodies see what the node sees; they must avoid every name of this and the enclosing scopes
+           (any position) except the outputs of their owner n *)
+        (forall gid, In gid (node_subgraph_ids n) -> Sub (loc ++ outer) (minus (forb ++ alld) (on_outs n)) gid) /\
         NoDup (nonempty (on_outs n)) /\
-        (forall o, In o (on_outs n) -> o <> "" -> ~ In o loc /\ ~ In o outer) /\ (* single assignment, no redefinition *)
-        WFNodes Sub outer (nonempty (on_outs n) ++ loc) r final
+        (forall o, In o (on_outs n) -> o <> "" -> ~ In o loc /\ ~ In o outer /\ ~ In o forb) /\ (* single assignment, no redefinition *)
+        WFNodes Sub alld forb outer (nonempty (on_outs n) ++ loc) r final
     end.
 
   Definition WFHeader (g : ograph) : Prop :=
@@ -232,25 +247,26 @@ Section Spec.
     ~ In "" (map vi_name (og_inputs g)) /\ ~ In "" (map vi_name (og_inits g)).
 
   (* d bounds the nesting depth below this graph *)
-  Fixpoint WFGraph (d : nat) (outer : list string) (gid : nat) : Prop :=
+  Fixpoint WFGraph (d : nat) (outer forb : list string) (gid : nat) : Prop :=
     match d with
     | O => False
     | S d' =>
         exists g, graph_by_id m gid = Some g /\ WFHeader g /\
           exists final,
-            WFNodes (WFGraph d') outer (map vi_name (og_inits g) ++ map vi_name (og_inputs g)) (og_nodes g) final /\
+            WFNodes (WFGraph d') (scope_defs (map vi_name (og_inits g) ++ map vi_name (og_inputs g)) (og_nodes g))
+                    forb outer (map vi_name (og_inits g) ++ map vi_name (og_inputs g)) (og_nodes g) final /\
             (forall o, In o (map vi_name (og_outputs g)) -> In o final)
     end.
 
   Definition WFFunction (d : nat) (f : ofunction) : Prop :=
     NoDup (of_inputs f) /\ NoDup (of_outputs f) /\ ~ In "" (of_inputs f) /\
-    exists final, WFNodes (WFGraph d) [] (of_inputs f) (of_nodes f) final /\
+    exists final, WFNodes (WFGraph d) (scope_defs (of_inputs f) (of_nodes f)) [] [] (of_inputs f) (of_nodes f) final /\
                   (forall o, In o (of_outputs f) -> In o final).
 End Spec.
 
 Definition WF (m : omodel) : Prop :=
   (exists d,
-    WFGraph m (NodeOK m [om_opsets m]) d [] 0 /\
+    WFGraph m (NodeOK m [om_opsets m]) d [] [] 0 /\
     forall f, In f (om_functions m) -> WFFunction m (NodeOK m [of_opsets f; om_opsets m]) d f) /\
   (exists k, forall f, In f (om_functions m) -> CallDepth m k f).
 
@@ -261,17 +277,17 @@ Section Sound.
   Variable NodeP : onode -> Prop.
   Hypothesis nodeP_sound : forall n, nodeP n = true -> NodeP n.
 
-  Lemma chk_nodes_sound (sub : list string -> nat -> bool) (Sub : list string -> nat -> Prop) :
-    (forall vis gid, sub vis gid = true -> Sub vis gid) ->
-    forall ns outer loc final,
-      chk_nodes nodeP sub outer loc ns = Some final -> WFNodes NodeP Sub outer loc ns final.
+  Lemma chk_nodes_sound (sub : list string -> list string -> nat -> bool) (Sub : list string -> list string -> nat -> Prop) :
+    (forall vis fb gid, sub vis fb gid = true -> Sub vis fb gid) ->
+    forall ns alld forb outer loc final,
+      chk_nodes nodeP sub alld forb outer loc ns = Some final -> WFNodes NodeP Sub alld forb outer loc ns final.
   Proof.
-    intros Hsub. induction ns as [|n r IH]; intros outer loc final H; cbn in H |- *.
+    intros Hsub. induction ns as [|n r IH]; intros alld forb outer loc final H; cbn in H |- *.
     - now injection H as <-.
     - destruct (nodeP n) eqn:E1; [|discriminate].
       destruct (ins_ok (loc ++ outer) n) eqn:E2; [|discriminate].
-      destruct (forallb (sub (loc ++ outer)) (node_subgraph_ids n)) eqn:E3; [|discriminate].
-      destruct (outs_ok (loc ++ outer) n) eqn:E4; [|discriminate].
+      destruct (forallb (sub (loc ++ outer) (minus (forb ++ alld) (on_outs n))) (node_subgraph_ids n)) eqn:E3; [|discriminate].
+      destruct (outs_ok (forb ++ loc ++ outer) n) eqn:E4; [|discriminate].
       cbn in H. split; [now apply nodeP_sound|]. split; [|split; [|split; [|split]]].
       + intros i Hi Hne. unfold ins_ok in E2. rewrite forallb_forall in E2. specialize (E2 i Hi).
         apply orb_prop in E2 as [E|E]; [apply String.eqb_eq in E; contradiction|].
@@ -281,7 +297,7 @@ Section Sound.
       + intros o Ho Hne. unfold outs_ok in E4. apply andb_prop in E4 as [_ E4].
         rewrite forallb_forall in E4. assert (In o (nonempty (on_outs n))) as Hn by (now apply nonempty_In).
         specialize (E4 o Hn). apply negb_true_iff in E4. apply str_mem_false in E4.
-        split; intro Hc; apply E4; apply in_or_app; [now left | now right].
+        repeat split; intro Hc; apply E4; rewrite !in_app_iff; auto.
       + now apply IH.
   Qed.
 
@@ -293,16 +309,16 @@ Section Sound.
     repeat split; auto using nodupb_NoDup.
   Qed.
 
-  Lemma chk_graph_sound : forall fuel outer gid,
-    chk_graph m nodeP fuel outer gid = true -> WFGraph m NodeP fuel outer gid.
+  Lemma chk_graph_sound : forall fuel outer forb gid,
+    chk_graph m nodeP fuel outer forb gid = true -> WFGraph m NodeP fuel outer forb gid.
   Proof.
-    induction fuel as [|f IH]; intros outer gid H; cbn in H |- *; [discriminate|].
+    induction fuel as [|f IH]; intros outer forb gid H; cbn in H |- *; [discriminate|].
     destruct (graph_by_id m gid) as [g|] eqn:Eg; [|discriminate].
     apply andb_prop in H as [Hh H].
-    destruct (chk_nodes nodeP (chk_graph m nodeP f) outer _ (og_nodes g)) as [final|] eqn:En; [|discriminate].
+    destruct (chk_nodes nodeP (chk_graph m nodeP f) _ forb outer _ (og_nodes g)) as [final|] eqn:En; [|discriminate].
     exists g. split; [reflexivity|]. split; [now apply header_sound|].
     exists final. split.
-    - eapply chk_nodes_sound; [|exact En]. intros vis gid' Hs. now apply IH.
+    - eapply chk_nodes_sound; [|exact En]. intros vis fb gid' Hs. now apply IH.
     - intros o Ho. rewrite forallb_forall in H. apply str_mem_In. now apply H.
   Qed.
 
@@ -311,11 +327,11 @@ Section Sound.
   Proof.
     unfold chk_function, WFFunction. intro H.
     apply andb_prop in H as [H Hn]. apply andb_prop in H as [H H3]. apply andb_prop in H as [H1 H2].
-    destruct (chk_nodes nodeP (chk_graph m nodeP fuel) [] (of_inputs f) (of_nodes f)) as [final|] eqn:En; [|discriminate].
+    destruct (chk_nodes nodeP (chk_graph m nodeP fuel) _ [] [] (of_inputs f) (of_nodes f)) as [final|] eqn:En; [|discriminate].
     apply negb_true_iff in H3. apply str_mem_false in H3.
     repeat split; auto using nodupb_NoDup.
     exists final. split.
-    - eapply chk_nodes_sound; [|exact En]. intros vis gid Hs. now apply chk_graph_sound.
+    - eapply chk_nodes_sound; [|exact En]. intros vis fb gid Hs. now apply chk_graph_sound.
     - intros o Ho. rewrite forallb_forall in Hn. apply str_mem_In. now apply Hn.
   Qed.
 End Sound.
@@ -334,19 +350,19 @@ Qed.
 (* ------------------------------------------------------------------ positional reading of WFNodes *)
 Section Reading.
   Variable NodeP : onode -> Prop.
-  Variable Sub : list string -> nat -> Prop.
+  Variable Sub : list string -> list string -> nat -> Prop.
 
   Definition defs (ns : list onode) : list string := nonempty (flat_map on_outs ns).
 
   Lemma nonempty_app a b : nonempty (a ++ b) = nonempty a ++ nonempty b.
   Proof. unfold nonempty. apply filter_app. Qed.
 
-  Lemma WFNodes_final : forall ns outer loc final,
-    WFNodes NodeP Sub outer loc ns final -> forall x, In x final <-> In x (defs ns) \/ In x loc.
+  Lemma WFNodes_final : forall ns alld forb outer loc final,
+    WFNodes NodeP Sub alld forb outer loc ns final -> forall x, In x final <-> In x (defs ns) \/ In x loc.
   Proof.
-    induction ns as [|n r IH]; intros outer loc final H x; cbn in H.
+    induction ns as [|n r IH]; intros alld forb outer loc final H x; cbn in H.
     - subst. cbn. tauto.
-    - destruct H as (_ & _ & _ & _ & _ & H). rewrite (IH _ _ _ H x).
+    - destruct H as (_ & _ & _ & _ & _ & H). rewrite (IH _ _ _ _ _ H x).
       unfold defs. cbn [flat_map]. rewrite nonempty_app, !in_app_iff. tauto.
   Qed.
 
@@ -360,78 +376,92 @@ Section Reading.
   Qed.
 
   (* single assignment: the names defined in one scope are pairwise distinct ... *)
-  Lemma WFNodes_ssa : forall ns outer loc final,
-    WFNodes NodeP Sub outer loc ns final -> NoDup loc -> NoDup final.
+  Lemma WFNodes_ssa : forall ns alld forb outer loc final,
+    WFNodes NodeP Sub alld forb outer loc ns final -> NoDup loc -> NoDup final.
   Proof.
-    induction ns as [|n r IH]; intros outer loc final H Hl; cbn in H.
+    induction ns as [|n r IH]; intros alld forb outer loc final H Hl; cbn in H.
     - now subst.
-    - destruct H as (_ & _ & _ & Hnd & Hfresh & H). apply (IH _ _ _ H).
+    - destruct H as (_ & _ & _ & Hnd & Hfresh & H). apply (IH _ _ _ _ _ H).
       apply NoDup_app_intro; auto. intros x Hx. apply nonempty_In in Hx as [Hx Hne].
       now destruct (Hfresh x Hx Hne).
   Qed.
 
-  (* ... and none of them redefines a name visible from an enclosing scope *)
-  Lemma WFNodes_no_redefinition : forall ns outer loc final,
-    WFNodes NodeP Sub outer loc ns final -> forall x, In x (defs ns) -> ~ In x outer.
+  (* ... and none of them redefines a name visible from an enclosing scope, nor any name `forb` that the
+     enclosing scopes define at any position (outputs of the owner nodes excepted) *)
+  Lemma WFNodes_no_redefinition : forall ns alld forb outer loc final,
+    WFNodes NodeP Sub alld forb outer loc ns final -> forall x, In x (defs ns) -> ~ In x outer /\ ~ In x forb.
   Proof.
-    induction ns as [|n r IH]; intros outer loc final H x Hx; cbn in H.
+    induction ns as [|n r IH]; intros alld forb outer loc final H x Hx; cbn in H.
     - destruct Hx.
     - destruct H as (_ & _ & _ & _ & Hfresh & H). unfold defs in Hx. cbn [flat_map] in Hx.
       rewrite nonempty_app in Hx. apply in_app_or in Hx as [Hx|Hx].
-      + apply nonempty_In in Hx as [Hx Hne]. now destruct (Hfresh x Hx Hne).
-      + now apply (IH _ _ _ H).
+      + apply nonempty_In in Hx as [Hx Hne]. destruct (Hfresh x Hx Hne) as (_ & H1 & H2). auto.
+      + now apply (IH _ _ _ _ _ H).
   Qed.
 
   (* definition before use, positionally: an input of the k-th node is defined by the scope header,
      by an EARLIER node of the same scope, or is visible from an enclosing scope *)
-  Lemma WFNodes_def_before_use : forall pre n post outer loc final,
-    WFNodes NodeP Sub outer loc (pre ++ n :: post) final ->
+  Lemma WFNodes_def_before_use : forall pre n post alld forb outer loc final,
+    WFNodes NodeP Sub alld forb outer loc (pre ++ n :: post) final ->
     forall i, In i (on_ins n) -> i <> "" -> In i loc \/ In i (defs pre) \/ In i outer.
   Proof.
-    induction pre as [|p pre IH]; intros n post outer loc final H i Hi Hne; cbn in H.
+    induction pre as [|p pre IH]; intros n post alld forb outer loc final H i Hi Hne; cbn in H.
     - destruct H as (_ & Hin & _). destruct (Hin i Hi Hne); auto.
-    - destruct H as (_ & _ & _ & _ & _ & H). specialize (IH _ _ _ _ _ H i Hi Hne).
+    - destruct H as (_ & _ & _ & _ & _ & H). specialize (IH _ _ _ _ _ _ _ H i Hi Hne).
       unfold defs. cbn [flat_map]. rewrite nonempty_app, in_app_iff.
       destruct IH as [IH|[IH|IH]]; auto. apply in_app_or in IH as [IH|IH]; auto.
   Qed.
 
-  (* every nested body of the k-th node is checked against exactly the names visible at that node *)
-  Lemma WFNodes_bodies : forall pre n post outer loc final,
-    WFNodes NodeP Sub outer loc (pre ++ n :: post) final ->
-    forall gid, In gid (node_subgraph_ids n) ->
-      exists vis, Sub vis gid /\ forall x, In x vis <-> In x (defs pre) \/ In x loc \/ In x outer.
+  Lemma minus_In l r x : In x (minus l r) <-> In x l /\ ~ In x r.
   Proof.
-    induction pre as [|p pre IH]; intros n post outer loc final H gid Hg; cbn in H.
-    - destruct H as (_ & _ & Hs & _). exists (loc ++ outer). split; [now apply Hs|].
-      intro x. rewrite in_app_iff. unfold defs. cbn. tauto.
-    - destruct H as (_ & _ & _ & _ & _ & H). destruct (IH _ _ _ _ _ H gid Hg) as [vis [Hv Hx]].
-      exists vis. split; [exact Hv|]. intro x. rewrite Hx. unfold defs. cbn [flat_map].
+    unfold minus. rewrite filter_In, negb_true_iff. split; intros [H1 H2]; split; auto; now apply str_mem_false.
+  Qed.
+
+  (* every nested body of the k-th node is checked against exactly the names visible at that node, and must avoid
+     exactly the names of this and the enclosing scopes other than the outputs of its owner *)
+  Lemma WFNodes_bodies : forall pre n post alld forb outer loc final,
+    WFNodes NodeP Sub alld forb outer loc (pre ++ n :: post) final ->
+    forall gid, In gid (node_subgraph_ids n) ->
+      exists vis fb, Sub vis fb gid /\
+        (forall x, In x vis <-> In x (defs pre) \/ In x loc \/ In x outer) /\
+        (forall x, In x fb <-> (In x forb \/ In x alld) /\ ~ In x (on_outs n)).
+  Proof.
+    induction pre as [|p pre IH]; intros n post alld forb outer loc final H gid Hg; cbn in H.
+    - destruct H as (_ & _ & Hs & _). exists (loc ++ outer), (minus (forb ++ alld) (on_outs n)).
+      split; [now apply Hs|]. split.
+      + intro x. rewrite in_app_iff. unfold defs. cbn. tauto.
+      + intro x. rewrite minus_In, in_app_iff. tauto.
+    - destruct H as (_ & _ & _ & _ & _ & H). destruct (IH _ _ _ _ _ _ _ H gid Hg) as (vis & fb & Hv & Hx & Hf).
+      exists vis, fb. split; [exact Hv|]. split; [|exact Hf]. intro x. rewrite Hx. unfold defs. cbn [flat_map].
       rewrite nonempty_app, !in_app_iff. tauto.
   Qed.
 
-  Lemma WFNodes_nodeP : forall ns outer loc final,
-    WFNodes NodeP Sub outer loc ns final -> forall n, In n ns -> NodeP n.
+  Lemma WFNodes_nodeP : forall ns alld forb outer loc final,
+    WFNodes NodeP Sub alld forb outer loc ns final -> forall n, In n ns -> NodeP n.
   Proof.
-    induction ns as [|a r IH]; intros outer loc final H n Hn; cbn in H; [destruct Hn|].
-    destruct H as (Hp & _ & _ & _ & _ & H). destruct Hn as [<-|Hn]; [exact Hp|]. now apply (IH _ _ _ H).
+    induction ns as [|a r IH]; intros alld forb outer loc final H n Hn; cbn in H; [destruct Hn|].
+    destruct H as (Hp & _ & _ & _ & _ & H). destruct Hn as [<-|Hn]; [exact Hp|]. now apply (IH _ _ _ _ _ H).
   Qed.
 End Reading.
 
 (* monotonicity in the depth bound *)
-Lemma WFNodes_mono NodeP (S1 S2 : list string -> nat -> Prop) :
-  (forall v g, S1 v g -> S2 v g) ->
-  forall ns outer loc final, WFNodes NodeP S1 outer loc ns final -> WFNodes NodeP S2 outer loc ns final.
+Lemma WFNodes_mono NodeP (S1 S2 : list string -> list string -> nat -> Prop) :
+  (forall v fb g, S1 v fb g -> S2 v fb g) ->
+  forall ns alld forb outer loc final,
+    WFNodes NodeP S1 alld forb outer loc ns final -> WFNodes NodeP S2 alld forb outer loc ns final.
 Proof.
-  intros HS. induction ns as [|n r IH]; intros outer loc final H; cbn in H |- *; [exact H|].
-  destruct H as (H1 & H2 & H3 & H4 & H5 & H6). repeat split; auto. now apply H5. now apply H5.
+  intros HS. induction ns as [|n r IH]; intros alld forb outer loc final H; cbn in H |- *; [exact H|].
+  destruct H as (H1 & H2 & H3 & H4 & H5 & H6). split; [exact H1|]. split; [exact H2|].
+  split; [intros gid Hg; apply HS; now apply H3|]. split; [exact H4|]. split; [exact H5|]. now apply IH.
 Qed.
 
-Lemma WFGraph_mono m NodeP : forall d outer gid, WFGraph m NodeP d outer gid -> WFGraph m NodeP (S d) outer gid.
+Lemma WFGraph_mono m NodeP : forall d outer forb gid,
+  WFGraph m NodeP d outer forb gid -> WFGraph m NodeP (S d) outer forb gid.
 Proof.
-  induction d as [|d IH]; intros outer gid H; [destruct H|].
+  induction d as [|d IH]; intros outer forb gid H; [destruct H|].
   cbn [WFGraph] in H. destruct H as (g & Hg & Hh & final & Hn & Ho).
   cbn [WFGraph]. exists g. split; [exact Hg|]. split; [exact Hh|]. exists final. split; [|exact Ho].
-  eapply WFNodes_mono; [|exact Hn]. intros v g' Hs. now apply IH.
+  eapply WFNodes_mono; [|exact Hn]. intros v fb g' Hs. now apply IH.
 Qed.
 
 (* ------------------------------------------------------------------ evaluation over uninterpreted operators *)
@@ -561,15 +591,15 @@ Section Eval.
 
   Section NodesOk.
     Variable NodeP : onode -> Prop.
-    Variable Sub : list string -> nat -> Prop.
+    Variable Sub : list string -> list string -> nat -> Prop.
     Variable sub : env -> nat -> (nat -> V) -> res (list V).
-    Hypothesis sub_ok : forall vis e gid args, Sub vis gid -> covers vis e -> exists vs, sub e gid args = Ok vs.
+    Hypothesis sub_ok : forall vis fb e gid args, Sub vis fb gid -> covers vis e -> exists vs, sub e gid args = Ok vs.
 
-    Lemma eval_nodes_ok : forall ns outer loc final eo el,
-      WFNodes NodeP Sub outer loc ns final -> covers outer eo -> covers loc el ->
+    Lemma eval_nodes_ok : forall ns alld forb outer loc final eo el,
+      WFNodes NodeP Sub alld forb outer loc ns final -> covers outer eo -> covers loc el ->
       exists ef, eval_nodes sub eo el ns = Ok ef /\ covers final ef.
     Proof.
-      induction ns as [|n r IH]; intros outer loc final eo el H Ho Hl; cbn in H |- *.
+      induction ns as [|n r IH]; intros alld forb outer loc final eo el H Ho Hl; cbn in H |- *.
       - subst. eauto.
       - destruct H as (_ & Hin & Hsub & _ & _ & H).
         assert (Hvis : covers (loc ++ outer) (el ++ eo)) by now apply covers_app.
@@ -595,26 +625,27 @@ Section Eval.
     specialize (Hc o (Ho o Hin) Hn). destruct (lookup ef o); [eauto|congruence].
   Qed.
 
-  Lemma final_no_empty NodeP Sub ns outer loc final :
-    WFNodes NodeP Sub outer loc ns final -> ~ In "" loc -> ~ In "" final.
+  Lemma final_no_empty NodeP Sub ns alld forb outer loc final :
+    WFNodes NodeP Sub alld forb outer loc ns final -> ~ In "" loc -> ~ In "" final.
   Proof.
-    intros H Hl Hc. apply (WFNodes_final _ _ _ _ _ _ H) in Hc as [Hc|Hc]; [|contradiction].
+    intros H Hl Hc. apply (WFNodes_final _ _ _ _ _ _ _ _ H) in Hc as [Hc|Hc]; [|contradiction].
     unfold defs in Hc. apply nonempty_In in Hc as [_ Hc]. now apply Hc.
   Qed.
 
   (* MAIN LEMMA: a graph that is WF at depth d under the visible names `outer` evaluates (fuel d) without any
      failed lookup in every environment that binds the visible names, whatever the operators do *)
-  Theorem eval_graph_ok NodeP : forall d outer gid eo args,
-    WFGraph m NodeP d outer gid -> covers outer eo -> exists vs, eval_graph d eo gid args = Ok vs.
+  Theorem eval_graph_ok NodeP : forall d outer forb gid eo args,
+    WFGraph m NodeP d outer forb gid -> covers outer eo -> exists vs, eval_graph d eo gid args = Ok vs.
   Proof.
-    induction d as [|d IH]; intros outer gid eo args H Ho; [destruct H|].
+    induction d as [|d IH]; intros outer forb gid eo args H Ho; [destruct H|].
     cbn [WFGraph] in H. destruct H as (g & Hg & (Hi1 & Hi2 & Hi3 & Hi4) & final & Hn & Hout).
     cbn [eval_graph]. rewrite Hg.
     set (loc0 := bind_names (map vi_name (og_inputs g)) 0 args ++ _).
     destruct (eval_nodes_ok NodeP (WFGraph m NodeP d) (eval_graph d)) with
       (ns := og_nodes g) (outer := outer) (loc := map vi_name (og_inits g) ++ map vi_name (og_inputs g))
+      (alld := scope_defs (map vi_name (og_inits g) ++ map vi_name (og_inputs g)) (og_nodes g)) (forb := forb)
       (final := final) (eo := eo) (el := loc0) as [ef [-> Hf]]; auto.
-    - intros vis e gid' args' Hs Hc. eapply IH; eauto.
+    - intros vis fb e gid' args' Hs Hc. eapply IH; eauto.
     - intros x Hx Hne. subst loc0. rewrite lookup_app. apply in_app_or in Hx as [Hx|Hx].
       + destruct (lookup (bind_names (map vi_name (og_inputs g)) 0 args) x); [discriminate|].
         now apply lookup_bind_names.
@@ -630,8 +661,9 @@ Section Eval.
     intros (H1 & H2 & H3 & final & Hn & Hout). unfold eval_function.
     destruct (eval_nodes_ok NodeP (WFGraph m NodeP d) (eval_graph d)) with
       (ns := of_nodes f) (outer := @nil string) (loc := of_inputs f)
+      (alld := scope_defs (of_inputs f) (of_nodes f)) (forb := @nil string)
       (final := final) (eo := @nil (string * V)) (el := bind_names (of_inputs f) 0 args) as [ef [-> Hf]]; auto.
-    - intros vis e gid args' Hs Hc. eapply eval_graph_ok; eauto.
+    - intros vis fb e gid args' Hs Hc. eapply eval_graph_ok; eauto.
     - intros x Hx. destruct Hx.
     - apply covers_bind_names.
     - cbn. eapply read_outs_ok; eauto. eapply final_no_empty; eauto.
@@ -662,7 +694,7 @@ Corollary wf_model_eval_never_fails m : wf_model m = true ->
 Proof.
   intros H V op_out body_arg init_val. unfold wf_model in H. apply andb_prop in H as [H _].
   apply andb_prop in H as [H1 H2]. split.
-  - intro args. eapply eval_graph_ok with (outer := @nil string); [|intros x Hx; destruct Hx].
+  - intro args. eapply eval_graph_ok with (outer := @nil string) (forb := @nil string); [|intros x Hx; destruct Hx].
     eapply chk_graph_sound; [|exact H1]. intros n Hn. exact (node_ok_sound _ _ _ Hn).
   - intros f args Hin. rewrite forallb_forall in H2. specialize (H2 f Hin).
     eapply eval_function_ok. eapply chk_function_sound; [|exact H2]. intros n Hn. exact (node_ok_sound _ _ _ Hn).
@@ -693,8 +725,8 @@ Section Diag.
   Fixpoint first_some {A} (f : A -> option string) (l : list A) : option string :=
     match l with [] => None | x :: r => match f x with Some e => Some e | None => first_some f r end end.
 
-  Fixpoint diag_nodes (sub : list string -> nat -> option string) (outer loc : list string) (ns : list onode)
-    : string + list string :=
+  Fixpoint diag_nodes (sub : list string -> list string -> nat -> option string) (alld forb outer loc : list string)
+    (ns : list onode) : string + list string :=
     match ns with
     | [] => inr loc
     | n :: r =>
@@ -703,17 +735,20 @@ Section Diag.
         match find (fun i => negb (String.eqb i "" || str_mem i vis)) (on_ins n) with
         | Some i => inl ("use-before-def|" ++ i ++ "@" ++ node_label n)%string
         | None =>
-        match first_some (sub vis) (node_subgraph_ids n) with Some e => inl e | None =>
+        match first_some (sub vis (minus (forb ++ alld) (on_outs n))) (node_subgraph_ids n) with Some e => inl e | None =>
         match first_dup (nonempty (on_outs n)) with
         | Some o => inl ("redefined|" ++ o ++ "@" ++ node_label n)%string
         | None =>
         match find (fun o => str_mem o vis) (nonempty (on_outs n)) with
         | Some o => inl ("redefined|" ++ o ++ "@" ++ node_label n)%string
-        | None => diag_nodes sub outer (nonempty (on_outs n) ++ loc) r
-        end end end end end
+        | None =>
+        match find (fun o => str_mem o forb) (nonempty (on_outs n)) with
+        | Some o => inl ("redefines-enclosing-scope-name|" ++ o ++ "@" ++ node_label n)%string
+        | None => diag_nodes sub alld forb outer (nonempty (on_outs n) ++ loc) r
+        end end end end end end
     end.
 
-  Fixpoint diag_graph (fuel : nat) (outer : list string) (gid : nat) : option string :=
+  Fixpoint diag_graph (fuel : nat) (outer forb : list string) (gid : nat) : option string :=
     match fuel with
     | O => Some "nesting-deeper-than-table|"
     | S f =>
@@ -725,7 +760,7 @@ Section Diag.
             match first_dup ins with Some x => Some ("duplicate-graph-input|" ++ x)%string | None =>
             match first_dup inits with Some x => Some ("duplicate-initializer|" ++ x)%string | None =>
             if str_mem "" ins || str_mem "" inits then Some "unnamed-input-or-initializer|" else
-            match diag_nodes (diag_graph f) outer (inits ++ ins) (og_nodes g) with
+            match diag_nodes (diag_graph f) (scope_defs (inits ++ ins) (og_nodes g)) forb outer (inits ++ ins) (og_nodes g) with
             | inl e => Some e
             | inr final =>
                 match find (fun o => negb (str_mem o final)) (map vi_name (og_outputs g)) with
@@ -740,7 +775,7 @@ Section Diag.
     match first_dup (of_inputs f) with Some x => Some ("duplicate-function-input|" ++ x ++ "@" ++ of_name f)%string | None =>
     match first_dup (of_outputs f) with Some x => Some ("duplicate-function-output|" ++ x ++ "@" ++ of_name f)%string | None =>
     if str_mem "" (of_inputs f) then Some ("unnamed-function-input|@" ++ of_name f)%string else
-    match diag_nodes (diag_graph fuel) [] (of_inputs f) (of_nodes f) with
+    match diag_nodes (diag_graph fuel) (scope_defs (of_inputs f) (of_nodes f)) [] [] (of_inputs f) (of_nodes f) with
     | inl e => Some ("in-function " ++ of_domain f ++ "::" ++ of_name f ++ " " ++ e)%string
     | inr final =>
         match find (fun o => negb (str_mem o final)) (of_outputs f) with
@@ -751,7 +786,7 @@ Section Diag.
 End Diag.
 
 Definition wf_first_bad (m : omodel) : option string :=
-  match diag_graph m [om_opsets m] (wf_fuel m) [] 0 with
+  match diag_graph m [om_opsets m] (wf_fuel m) [] [] 0 with
   | Some e => Some e
   | None =>
       match first_some (fun f => diag_function m [of_opsets f; om_opsets m] (wf_fuel m) f) (om_functions m) with
@@ -805,6 +840,21 @@ Proof. vm_compute. repeat split. Qed.
 Definition with_then (ns : list onode) : omodel :=
   mkOM 10 [("", 21%Z); ("custom.F.1", 1%Z)]
     [ex_main; mkOG 1 (Some 0%nat) [] [] ns [mkVI "t" 1 None] []; ex_else] [ex_fun].
+(* position-independent part of the rule: a body may not define a name that the parent defines LATER (here "late"),
+   but may reuse the name of its owner's output ("y") *)
+Definition with_later (inner_out : string) : omodel :=
+  mkOM 10 [("", 21%Z)]
+    [mkOG 0 None [mkVI "c" 9 None; mkVI "x" 1 None] []
+       [mkON "If" "" "n1" ["c"] ["y"] [("then_branch", AGraph 1); ("else_branch", AGraph 2)];
+        mkON "Relu" "" "n2" ["x"] ["late"] []]
+       [mkVI "y" 1 None; mkVI "late" 1 None] [];
+     mkOG 1 (Some 0%nat) [] [] [mkON "Abs" "" "a" ["x"] [inner_out] []] [mkVI inner_out 1 None] [];
+     mkOG 2 (Some 0%nat) [] [] [mkON "Neg" "" "b" ["x"] ["e"] []] [mkVI "e" 1 None] []] [].
+Example ex_position_independent :
+  wf_model (with_later "late") = false /\ wf_model (with_later "y") = true /\ wf_model (with_later "t") = true /\
+  wf_first_bad (with_later "late") = Some "redefines-enclosing-scope-name|late@Abs(a)".
+Proof. vm_compute. repeat split. Qed.
+
 Example ex_rejects :
   wf_model (with_then [mkON "Abs" "" "a" ["x"] ["p"] []; mkON "Abs" "" "b" ["p"] ["t"] []]) = false /\
   wf_model (with_then [mkON "Abs" "" "a" ["y"] ["t"] []]) = false /\
